@@ -411,7 +411,20 @@ func runC20(c *runCtx) error {
 		t.Rules = []hRule{{Name: "protect-main", Patterns: []string{"git:" + refMain}, Pids: []int{101}, Thr: 1}}
 		pol := &wPolicy{RootVersion: 1, RootKeys: []int{1}, RootThr: 1, TargetsKeys: []int{2}, TargetsThr: 1, HasTargetsRole: true, RootSigners: []int{1},
 			Files: []*wFile{t}, Hooks: hooks}
-		b, err := buildWorld(&wWorld{Events: []wEvent{{Kind: "policy", Pol: pol, Signer: 1}}})
+		events := []wEvent{{Kind: "policy", Pol: pol, Signer: 1}}
+		staged := r.Intn(2) == 0
+		if staged { // a staged, not yet applied policy that assigns every hook to everybody
+			sp := *pol
+			sp.RootVersion = 2
+			sp.Hooks = nil
+			for _, h := range hooks {
+				h2 := h
+				h2.Pids = []int{101, 102, 103, 104}
+				sp.Hooks = append(sp.Hooks, h2)
+			}
+			events = append(events, wEvent{Kind: "staging", Pol: &sp, Signer: 1})
+		}
+		b, err := buildWorld(&wWorld{Events: events})
 		if err != nil {
 			return err
 		}
@@ -470,7 +483,7 @@ func runC20(c *runCtx) error {
 			pterm = "(Some 1)"
 		}
 		c.add(fmt.Sprintf("(CHooks %s %s %d %s)", coqList(hterms), pterm, res, coqList(ran)), sideCase{Class: "hooks", Nontrivial: true, Key: keyOf(fmt.Sprint(hh, signerKey)),
-			Human: map[string]interface{}{"hooks": hh, "signer_key": signerKey, "result": fmt.Sprint(herr), "exit_codes": fmt.Sprint(codes)}})
+			Human: map[string]interface{}{"hooks": hh, "signer_key": signerKey, "result": fmt.Sprint(herr), "exit_codes": fmt.Sprint(codes), "staged_policy_assigns_all_hooks_to_everyone": staged}})
 	}
 	// ---- exit codes ----
 	exits := []struct {
